@@ -748,7 +748,7 @@ pub fn model_step(m: &mut Model, op: &ObsOp) {
     }
 }
 
-pub fn run_history<S: Sys>(unique: bool, ops: &[ObsOp]) -> Option<ObsFailure> {
+pub fn run_history<S: Sys>(unique: bool, ops: &[ObsOp], follow_upgrade: bool) -> Option<ObsFailure> {
     let mut m = Model::new(unique);
     let mut sys = S::new(Val { key: 0, tag: 0 }, unique);
     macro_rules! fail {
@@ -822,7 +822,15 @@ pub fn run_history<S: Sys>(unique: bool, ops: &[ObsOp]) -> Option<ObsFailure> {
             ObsOp::Upgrade(w) => {
                 let r = sys.upgrade(*w);
                 if r != (before.owners > 0) {
-                    fail!("C03", op, "WeakObservable::upgrade must succeed exactly while an owner exists", step, format!("{}", before.owners > 0), format!("{}", r));
+                    if !follow_upgrade {
+                        fail!("C03", op, "WeakObservable::upgrade must succeed exactly while an owner exists", step, format!("{}", before.owners > 0), format!("{}", r));
+                    }
+                    // counts focus (C19): keep going with what the library did, the counts must still add up
+                    if r {
+                        m.owners += 1;
+                    } else {
+                        m.owners -= 1;
+                    }
                 }
             }
             ObsOp::IntoShared => sys.into_shared(),
@@ -898,6 +906,341 @@ pub fn run_history<S: Sys>(unique: bool, ops: &[ObsOp]) -> Option<ObsFailure> {
                 fail!("C19", op, "handle counts (observable_count, subscriber_count, strong_count, weak_count) are not exact", step, format!("{:?}", exp), format!("{:?}", (oc, sc, st, wk)));
             }
         }
+    }
+    None
+}
+
+// ---------------------------------------------------------------- async-lock flavour: operations queued behind a held guard (C16)
+#[derive(Clone, Debug, PartialEq, Eq, Hash)]
+pub enum QOp {
+    Set(u8),
+    SetIfNotEq(u8),
+    SetIfHashNotEq(u8),
+    Update,
+    UpdateIf(bool),
+    Take,
+    OwnerGet,
+    SubNext,    // Subscriber::next()
+    SubNextNow, // Subscriber::next_now()
+    SubGet,     // Subscriber::get()
+    SubPoll,    // Stream::poll_next
+}
+impl QOp {
+    pub fn parse(s: &str) -> Option<QOp> {
+        let s = s.trim();
+        let (name, arg) = match s.find('(') {
+            Some(i) => (&s[..i], Some(&s[i + 1..s.len() - 1])),
+            None => (s, None),
+        };
+        let n = || arg.and_then(|a| a.parse::<u8>().ok());
+        Some(match name {
+            "Set" => QOp::Set(n()?),
+            "SetIfNotEq" => QOp::SetIfNotEq(n()?),
+            "SetIfHashNotEq" => QOp::SetIfHashNotEq(n()?),
+            "Update" => QOp::Update,
+            "UpdateIf" => QOp::UpdateIf(arg?.parse().ok()?),
+            "Take" => QOp::Take,
+            "OwnerGet" => QOp::OwnerGet,
+            "SubNext" => QOp::SubNext,
+            "SubNextNow" => QOp::SubNextNow,
+            "SubGet" => QOp::SubGet,
+            "SubPoll" => QOp::SubPoll,
+            _ => return None,
+        })
+    }
+    fn is_sub(&self) -> bool {
+        matches!(self, QOp::SubNext | QOp::SubNextNow | QOp::SubGet | QOp::SubPoll)
+    }
+}
+#[derive(Clone, Debug)]
+pub struct HeldScenario {
+    pub pre_set: Option<u8>,   // a Set(k) before anything else
+    pub subscribe: bool,       // create a subscriber (after pre_set)
+    pub set_after_sub: Option<u8>, // an update the subscriber has not observed
+    pub write_guard: bool,     // hold a write guard (else a read guard)
+    pub queued: Vec<QOp>,
+}
+#[derive(Debug, Clone)]
+enum QRes {
+    V(Val),
+    O(Option<Val>),
+    U,
+}
+type BoxFut = Pin<Box<dyn Future<Output = QRes>>>;
+
+pub fn run_held(sc: &HeldScenario) -> Option<ObsFailure> {
+    let cls = |k: &str| format!("async-lock/held-guard:{}", k);
+    macro_rules! fail {
+        ($k:expr, $what:expr, $exp:expr, $obs:expr) => {
+            return Some(ObsFailure { property: "C16", classification: cls($k), what: $what.to_string(), step: 0, expected: $exp, observed: $obs })
+        };
+    }
+    // model
+    let mut val = Val { key: 0, tag: 0 };
+    let mut version: u64 = 1;
+    let mut fresh: u32 = 1;
+    let owner: &'static SharedObservable<Val, AsyncLock> = Box::leak(Box::new(SharedObservable::new_async(val.clone())));
+    if let Some(k) = sc.pre_set {
+        val = Val { key: k, tag: fresh };
+        fresh += 1;
+        version += 1;
+        let _ = now(owner.set(val.clone()));
+    }
+    let mut observed: u64 = 0;
+    let sub: Option<*mut Subscriber<Val, AsyncLock>> = if sc.subscribe {
+        let s = now(owner.subscribe());
+        observed = version;
+        Some(Box::into_raw(Box::new(s)))
+    } else {
+        None
+    };
+    if let Some(k) = sc.set_after_sub {
+        val = Val { key: k, tag: fresh };
+        fresh += 1;
+        version += 1;
+        let _ = now(owner.set(val.clone()));
+    }
+    // take the guard
+    enum G {
+        W(eyeball::ObservableWriteGuard<'static, Val, AsyncLock>),
+        R(eyeball::ObservableReadGuard<'static, Val, AsyncLock>),
+    }
+    let guard = if sc.write_guard { G::W(now(owner.write())) } else { G::R(now(owner.read())) };
+    // queue the operations: each future is polled once
+    let mut futs: Vec<(QOp, Option<BoxFut>, Arc<Flag>, Option<QRes>, Val)> = Vec::new();
+    let mut sub_busy = false;
+    for q in &sc.queued {
+        if q.is_sub() && (sub.is_none() || sub_busy) {
+            continue; // one outstanding subscriber future at a time (it borrows the subscriber mutably)
+        }
+        let nv = Val { key: match q { QOp::Set(k) | QOp::SetIfNotEq(k) | QOp::SetIfHashNotEq(k) => *k, _ => 0 }, tag: fresh };
+        fresh += 1;
+        let tag = nv.tag;
+        let f: BoxFut = match q {
+            QOp::Set(_) => {
+                let v = nv.clone();
+                Box::pin(async move { QRes::V(owner.set(v).await) })
+            }
+            QOp::SetIfNotEq(_) => {
+                let v = nv.clone();
+                Box::pin(async move { QRes::O(owner.set_if_not_eq(v).await) })
+            }
+            QOp::SetIfHashNotEq(_) => {
+                let v = nv.clone();
+                Box::pin(async move { QRes::O(owner.set_if_hash_not_eq(v).await) })
+            }
+            QOp::Update => Box::pin(async move {
+                owner.update(|x| x.tag = tag).await;
+                QRes::U
+            }),
+            QOp::UpdateIf(b) => {
+                let b = *b;
+                Box::pin(async move {
+                    owner.update_if(|x| {
+                        x.tag = tag;
+                        b
+                    })
+                    .await;
+                    QRes::U
+                })
+            }
+            QOp::Take => Box::pin(async move { QRes::V(owner.take().await) }),
+            QOp::OwnerGet => Box::pin(async move { QRes::V(owner.get().await) }),
+            QOp::SubNext => {
+                sub_busy = true;
+                let s: &'static mut Subscriber<Val, AsyncLock> = unsafe { &mut *sub.unwrap() };
+                Box::pin(async move { QRes::O(s.next().await) })
+            }
+            QOp::SubNextNow => {
+                sub_busy = true;
+                let s: &'static mut Subscriber<Val, AsyncLock> = unsafe { &mut *sub.unwrap() };
+                Box::pin(async move { QRes::V(s.next_now().await) })
+            }
+            QOp::SubGet => {
+                sub_busy = true;
+                let s: &'static mut Subscriber<Val, AsyncLock> = unsafe { &mut *sub.unwrap() };
+                Box::pin(async move { QRes::V(s.get().await) })
+            }
+            QOp::SubPoll => {
+                sub_busy = true;
+                let s: &'static mut Subscriber<Val, AsyncLock> = unsafe { &mut *sub.unwrap() };
+                Box::pin(std::future::poll_fn(move |cx| Pin::new(&mut *s).poll_next(cx).map(QRes::O)))
+            }
+        };
+        futs.push((q.clone(), Some(f), Flag::new(), None, nv));
+    }
+    let poll_one = |e: &mut (QOp, Option<BoxFut>, Arc<Flag>, Option<QRes>, Val)| {
+        if let Some(f) = e.1.as_mut() {
+            e.2.take();
+            let w = flag_waker(&e.2);
+            let mut cx = Context::from_waker(&w);
+            if let Poll::Ready(r) = f.as_mut().poll(&mut cx) {
+                e.3 = Some(r);
+                e.1 = None;
+            }
+        }
+    };
+    // first poll in queue order: under a write guard everything must wait
+    let mut writer_queued = false;
+    for e in futs.iter_mut() {
+        poll_one(e);
+        let is_writer = !matches!(e.0, QOp::OwnerGet | QOp::SubNext | QOp::SubNextNow | QOp::SubGet | QOp::SubPoll);
+        if e.3.is_some() && (sc.write_guard || is_writer || writer_queued) {
+            fail!("not-exclusive", "an operation completed although a guard that excludes it was still held (or a writer was queued before it)", "Pending".to_string(), format!("{:?} completed: {:?}", e.0, e.3));
+        }
+        if is_writer {
+            writer_queued = true;
+        }
+    }
+    // release the guard: whoever can proceed must be woken
+    drop(guard);
+    let mut rounds = 0;
+    loop {
+        let mut progressed = false;
+        for e in futs.iter_mut() {
+            if e.1.is_some() && e.2.is_set() {
+                poll_one(e);
+                progressed = true;
+            }
+        }
+        if futs.iter().all(|e| e.1.is_none()) {
+            break;
+        }
+        rounds += 1;
+        if !progressed || rounds > 100 {
+            let stuck: Vec<String> = futs.iter().filter(|e| e.1.is_some()).map(|e| format!("{:?}", e.0)).collect();
+            // a subscriber stream that has nothing to report legitimately stays pending
+            let only_idle_sub = futs.iter().filter(|e| e.1.is_some()).all(|e| matches!(e.0, QOp::SubNext | QOp::SubPoll));
+            if only_idle_sub {
+                break;
+            }
+            fail!("lost-wakeup", "the lock was released but an operation waiting for it was never woken", "all queued operations complete".to_string(), format!("still pending, not woken: {:?}", stuck));
+        }
+    }
+    // compare with the reference. Writers (and single-acquisition readers) take effect one after the other in queue
+    // order. `next()` / `poll_next` of a subscriber may legitimately complete later (next() takes the lock twice and
+    // a pending stream is completed by a later update): they must hand out the value that was current after some
+    // position j >= their own, and must then have observed exactly that version.
+    let n = futs.len();
+    let mut val_after: Vec<Val> = vec![val.clone()];
+    let mut ver_after: Vec<u64> = vec![version];
+    for e in futs.iter() {
+        let exp: Option<QRes> = match &e.0 {
+            QOp::Set(_) => {
+                let p = val.clone();
+                val = e.4.clone();
+                version += 1;
+                Some(QRes::V(p))
+            }
+            QOp::SetIfNotEq(k) | QOp::SetIfHashNotEq(k) => {
+                if val.key != *k {
+                    let p = val.clone();
+                    val = e.4.clone();
+                    version += 1;
+                    Some(QRes::O(Some(p)))
+                } else {
+                    Some(QRes::O(None))
+                }
+            }
+            QOp::Update => {
+                val.tag = e.4.tag;
+                version += 1;
+                Some(QRes::U)
+            }
+            QOp::UpdateIf(b) => {
+                val.tag = e.4.tag;
+                if *b {
+                    version += 1;
+                }
+                Some(QRes::U)
+            }
+            QOp::Take => {
+                let p = val.clone();
+                val = Val::default();
+                version += 1;
+                Some(QRes::V(p))
+            }
+            QOp::OwnerGet | QOp::SubGet => Some(QRes::V(val.clone())),
+            QOp::SubNextNow | QOp::SubNext | QOp::SubPoll => None,
+        };
+        if let Some(exp) = exp {
+            let ok = match (&exp, &e.3) {
+                (QRes::V(a), Some(QRes::V(b))) => same(a, b),
+                (QRes::O(Some(a)), Some(QRes::O(Some(b)))) => same(a, b),
+                (QRes::O(None), Some(QRes::O(None))) => true,
+                (QRes::U, Some(QRes::U)) => true,
+                _ => false,
+            };
+            if !ok {
+                fail!("result", "operations queued behind a guard did not take effect atomically in queue order (results differ from the sequential execution in that order)", format!("{:?} -> {:?}", e.0, exp), format!("{:?}", e.3));
+            }
+        }
+        val_after.push(val.clone());
+        ver_after.push(version);
+    }
+    // the observed version is tracked as a set of candidates: equal values (e.g. two `take()`s both leave the default
+    // value) make it ambiguous which state a subscriber future saw
+    let mut cand: Vec<u64> = vec![observed];
+    for (i, e) in futs.iter().enumerate() {
+        match &e.0 {
+            QOp::SubNextNow => {
+                let ok = matches!(&e.3, Some(QRes::V(b)) if same(b, &val_after[i]));
+                if !ok {
+                    fail!("result", "next_now queued behind a guard did not return the value current at its turn", format!("{:?}", val_after[i]), format!("{:?}", e.3));
+                }
+                cand = vec![ver_after[i]];
+            }
+            QOp::SubNext | QOp::SubPoll => match &e.3 {
+                Some(QRes::O(Some(v))) => {
+                    let mut nc: Vec<u64> = Vec::new();
+                    for j in i..=n {
+                        if same(v, &val_after[j]) && cand.iter().any(|o| *o < ver_after[j]) && !nc.contains(&ver_after[j]) {
+                            nc.push(ver_after[j]);
+                        }
+                    }
+                    if nc.is_empty() {
+                        fail!("result", "a subscriber handed out a value that was not an unobserved current value at or after its turn", format!("one of {:?} (observed version {:?})", &val_after[i..], cand), format!("{:?}", v));
+                    }
+                    cand = nc;
+                }
+                Some(QRes::O(None)) => {
+                    fail!("result", "subscriber reported end of stream although the owner is alive", "Some(..) or pending".to_string(), "None".to_string());
+                }
+                None => {
+                    if cand.iter().all(|o| *o < ver_after[n]) {
+                        fail!("lost-wakeup", "a subscriber future stayed pending although an update it has not observed happened", "woken and completed".to_string(), "pending".to_string());
+                    }
+                }
+                other => {
+                    fail!("result", "unexpected result shape", "Option".to_string(), format!("{:?}", other));
+                }
+            },
+            _ => {}
+        }
+    }
+    drop(futs);
+    // afterwards: the owner holds the final value; the subscriber has observed what it handed out
+    let fin = now(owner.get());
+    if !same(&fin, &val) {
+        fail!("final-value", "final value differs from the sequential reference", format!("{:?}", val), format!("{:?}", fin));
+    }
+    if let Some(p) = sub {
+        let s: &mut Subscriber<Val, AsyncLock> = unsafe { &mut *p };
+        let fl = Flag::new();
+        let w = flag_waker(&fl);
+        let mut cx = Context::from_waker(&w);
+        let r = Pin::new(&mut *s).poll_next(&mut cx);
+        let may_ready = cand.iter().any(|o| *o < version);
+        let may_pending = cand.iter().any(|o| *o >= version);
+        let ok = match &r {
+            Poll::Ready(Some(v)) => may_ready && same(v, &val),
+            Poll::Pending => may_pending,
+            _ => false,
+        };
+        if !ok {
+            fail!("observed-version", "after the queued operations, the subscriber's readiness is wrong (a value it already handed out is offered again, or an unobserved update is not offered)", if may_ready && !may_pending { format!("Ready(Some({:?}))", val) } else if may_pending && !may_ready { "Pending".to_string() } else { "Ready(latest) or Pending".to_string() }, format!("{:?}", r));
+        }
+        unsafe { drop(Box::from_raw(p)) };
     }
     None
 }
